@@ -145,6 +145,35 @@ def _attr_constant(repo: Repo, T: Types, f: FuncInfo, e: ast.Attribute) -> str |
     return out
 
 
+def _char_value(repo: Repo, f: FuncInfo, e: ast.expr, depth: int = 0) -> str | None:
+    """The string an expression denotes if it is a constant or a `chr(<int constant | sys.maxunicode>)`, also behind a module constant."""
+    if depth > 3:
+        return None
+    c = _const_str(e)
+    if c is not None:
+        return c
+    if isinstance(e, ast.Call) and isinstance(e.func, ast.Name) and e.func.id == "chr" and len(e.args) == 1:
+        a = e.args[0]
+        if isinstance(a, ast.Constant) and isinstance(a.value, int):
+            try:
+                return chr(a.value)
+            except (ValueError, OverflowError):
+                return None
+        if norm(a) in ("sys.maxunicode", "maxunicode"):
+            return chr(0x10FFFF)
+        return None
+    if isinstance(e, ast.Name) and not _is_local(f, e.id):
+        k = _module_constant(repo, f, e.id)
+        if k is not None:
+            return _char_value(repo, f, k, depth + 1)
+    if isinstance(e, (ast.Name, ast.Attribute, ast.JoinedStr, ast.BinOp)):
+        try:
+            return fold(repo, f.module, e, f)
+        except Exception:  # noqa: BLE001
+            return None
+    return None
+
+
 def _is_local(f: FuncInfo, name: str) -> bool:
     key = ("stored_names", id(f.node))
     if key not in _cache:
@@ -1375,9 +1404,11 @@ def _relation_atoms(repo: Repo, f: FuncInfo, formula, hay: str, others: set[str]
 
     safe: hay == o, hay.startswith(<o + '.'>);  raw: hay.startswith(o)
     """
-    from core.guards import atom as mk, atoms_of
+    from core.guards import atom as mk, atoms_of, f_and, f_not
 
     safe, raw = [], []
+    heads: dict[str, object] = {}
+    seps: dict[str, object] = {}
     for a in atoms_of(formula):
         e = _parse_atom(a)
         if e is None:
@@ -1386,6 +1417,16 @@ def _relation_atoms(repo: Repo, f: FuncInfo, formula, hay: str, others: set[str]
             l, r = norm(e.left), norm(e.comparators[0])
             if (l == hay and r in others) or (r == hay and l in others):
                 safe.append(mk(a))
+            # positions / parts relative to a prefix that ends in '.':  H.find(o + ".") == 0,  H.partition(o + ".")[0] == ""
+            try:
+                x = _expand_names(repo, f, e)
+            except Exception:  # noqa: BLE001
+                x = e
+            for side, other_side in ((x.left, x.comparators[0]), (x.comparators[0], x.left)):
+                if isinstance(side, ast.Call) and isinstance(side.func, ast.Attribute) and side.func.attr in ("find", "index") and side.args and " ".join(ast.unparse(side.func.value).split()) == hay and _is_dotted_form(side.args[0], others) and isinstance(other_side, ast.Constant) and other_side.value == 0 and other_side.value is not False:
+                    safe.append(mk(a))
+                if isinstance(side, ast.Subscript) and isinstance(side.slice, ast.Constant) and side.slice.value in (0, 1) and isinstance(side.value, ast.Call) and isinstance(side.value.func, ast.Attribute) and side.value.func.attr == "partition" and side.value.args and " ".join(ast.unparse(side.value.func.value).split()) == hay and _is_dotted_form(side.value.args[0], others) and _const_str(other_side) == "":
+                    (heads if side.slice.value == 0 else seps)[norm(side.value)] = mk(a)
         inner = _unbool(e)
         if isinstance(inner, ast.Call) and isinstance(inner.func, ast.Attribute) and inner.func.attr == "startswith" and norm(inner.func.value) == hay and inner.args:
             nd = inner.args[0]
@@ -1405,6 +1446,9 @@ def _relation_atoms(repo: Repo, f: FuncInfo, formula, hay: str, others: set[str]
                 raise
             except Exception:  # noqa: BLE001
                 pass
+    for k, head_empty in heads.items():
+        if k in seps:
+            safe.append(f_and([head_empty, f_not(seps[k])]))  # the dotted prefix was found, and right at the beginning
     return safe, raw
 
 
@@ -2156,7 +2200,8 @@ def _evidence(repo: Repo, f: FuncInfo, x: ast.expr, H: str, N: str) -> tuple[int
     L = f"len({N})"
     rest = f"{H}[{L}:]"
     u = lambda t: " ".join(t.split())  # noqa: E731
-    txt = lambda e: u(ast.unparse(e))  # noqa: E731
+    # `H.removeprefix(N)` is the remainder wherever H starts with N (and H itself - never empty, never starting with '.' - elsewhere)
+    txt = lambda e: u(ast.unparse(e)).replace(f"{H}.removeprefix({N})", rest)  # noqa: E731
     if isinstance(x, ast.Call) and isinstance(x.func, ast.Name) and x.func.id == "bool" and len(x.args) == 1:
         x = x.args[0]
         if isinstance(x, ast.Compare):
@@ -2344,6 +2389,26 @@ def _match_decides(repo: Repo, f: FuncInfo, node: ast.AST, hay_e: ast.expr, need
     return False
 
 
+def _index_error_decides(repo: Repo, f: FuncInfo, node: ast.AST, hay_e: ast.expr, needle_e: ast.expr) -> bool:
+    """`node` sits in the `except IndexError` handler of a try whose body reads the character after the prefix (`H[len(N)]`):
+    it is reached exactly when nothing follows the prefix."""
+    H, N = _canon(repo, f, hay_e), _canon(repo, f, needle_e)
+    handler = None
+    for a in ancestors(node):
+        if a is f.node:
+            return False
+        if isinstance(a, ast.ExceptHandler):
+            handler = a
+        elif isinstance(a, ast.Try) and handler is not None and handler in a.handlers:
+            t = handler.type
+            names_ = [norm(x) for x in (t.elts if isinstance(t, ast.Tuple) else [t])] if t is not None else []
+            if "IndexError" not in names_:
+                return False
+            want = {f"{H}[len({N})]", f"{H}[len({N}):][0]"}
+            return any(isinstance(x, ast.Subscript) and _canon(repo, f, x) in want for st_ in a.body for x in ast.walk(st_))
+    return False
+
+
 def _raw_test_is_guarded(repo: Repo, f: FuncInfo, test: ast.expr, hay_e: ast.expr, needle_e: ast.expr) -> str | None:
     """A raw prefix test `test` (truthy = H starts with the plain string N) is harmless if
       (a) the conditions on the path to it already are boundary evidence, or
@@ -2412,7 +2477,7 @@ def _raw_test_is_guarded(repo: Repo, f: FuncInfo, test: ast.expr, hay_e: ast.exp
             if isinstance(e_, ast.stmt) and _is_remainder_def(repo, f, e_, H, N):
                 continue
             dependent += 1
-            if _match_decides(repo, f, e_, hay_e, needle_e):
+            if _match_decides(repo, f, e_, hay_e, needle_e) or _index_error_decides(repo, f, e_, hay_e, needle_e):
                 continue
             whole = ge
             if isinstance(e_, ast.Return) and e_.value is not None:
@@ -2667,6 +2732,8 @@ def _relation_predicate(repo: Repo, g: FuncInfo, H: str, N: str, depth: int = 0)
                     elif isinstance(inner, ast.Call) and _relation_call(repo, g, inner, H, {N}, depth):
                         good.append(mk(a))
                 ev = _evidence_goal(repo, g, F, h_e, n_e)
+                if raws and _index_error_decides(repo, g, r, h_e, n_e):
+                    ev = ("const", True)  # reached when nothing follows the prefix
                 goal = f_or([*good, *([f_and([f_or(raws), ev])] if raws and ev is not None else [])])
                 if goal == ("const", False) or not implies(F, goal):
                     ok = False
@@ -3028,6 +3095,50 @@ def _slice_by_len_at(repo: Repo, g: FuncInfo, at: ast.AST, hay_e: ast.expr, othe
 # --------------------------------------------------------------------------- the scan
 
 
+def _head_tested_empty(repo: Repo, f: FuncInfo, call: ast.Call) -> bool:
+    """`head, sep, tail = x.partition(p)` (or `x.partition(p)[0]`): the head is used, and only in tests that it is empty."""
+
+    def emptiness_test(u: ast.AST) -> bool:
+        p = parent(u)
+        if isinstance(p, ast.Compare) and len(p.ops) == 1 and isinstance(p.ops[0], (ast.Eq, ast.NotEq)):
+            other = p.comparators[0] if p.left is u else p.left
+            return _const_str(other) == ""
+        if isinstance(p, ast.UnaryOp) and isinstance(p.op, ast.Not):
+            return True
+        return isinstance(p, (ast.BoolOp, ast.If, ast.While)) or (isinstance(p, ast.IfExp) and p.test is u)
+
+    if isinstance(f.node, ast.Lambda):
+        return False
+    p = parent(call)
+    if isinstance(p, ast.Subscript) and isinstance(p.slice, ast.Constant) and p.slice.value == 0:
+        return emptiness_test(p)
+    st = stmt_of(call)
+    if isinstance(st, ast.Assign) and st.value is call and len(st.targets) == 1 and isinstance(st.targets[0], (ast.Tuple, ast.List)) and len(st.targets[0].elts) == 3 and isinstance(st.targets[0].elts[0], ast.Name):
+        head = st.targets[0].elts[0].id
+        stores = [x for x in own_nodes(f.node) if isinstance(x, ast.Name) and x.id == head and isinstance(x.ctx, ast.Store)]
+        loads = [x for x in own_nodes(f.node) if isinstance(x, ast.Name) and x.id == head and isinstance(x.ctx, ast.Load)]
+        return len(stores) == 1 and bool(loads) and all(emptiness_test(x) for x in loads)
+    return False
+
+
+def _block_lower_bound(repo: Repo, f: FuncInfo, upper_call: ast.Call) -> ast.expr | None:
+    """The expression giving the lower index of the slice whose upper index is (the local holding) `upper_call`."""
+    if isinstance(f.node, ast.Lambda):
+        return None
+    targets = {id(upper_call)}
+    st = stmt_of(upper_call)
+    var = st.targets[0].id if isinstance(st, ast.Assign) and st.value is upper_call and len(st.targets) == 1 and isinstance(st.targets[0], ast.Name) else None
+    for x in own_nodes(f.node):
+        if isinstance(x, ast.Subscript) and isinstance(x.slice, ast.Slice) and x.slice.upper is not None and x.slice.lower is not None:
+            up = x.slice.upper
+            if id(up) in targets or (var is not None and isinstance(up, ast.Name) and up.id == var):
+                lo = x.slice.lower
+                if isinstance(lo, ast.Name):
+                    lo = local_defs(repo, f).get(lo.id, lo)
+                return lo
+    return None
+
+
 def _only_compared_with_zero(repo: Repo, f: FuncInfo, call: ast.Call) -> bool:
     """The result of `x.find(p)` / `x.index(p)` is used for nothing but `== 0` / `!= 0` (directly or through one local)."""
 
@@ -3184,6 +3295,8 @@ def _scan(repo: Repo) -> list[Site]:
                             why = "only the separator '.' is searched" if safe else f"`{norm(n, 80)}`: a module name is cut / searched at {const!r}, not at the separator '.'"
                         elif op in ("find", "index") and _only_compared_with_zero(repo, f, n) and needle_status(repo, f, needle) == "dot":
                             safe, why = True, "the position of a prefix that ends in '.' is only compared with 0: a prefix test on whole dotted components"
+                        elif op == "partition" and _head_tested_empty(repo, f, n) and needle_status(repo, f, needle) == "dot":
+                            safe, why = True, "the name is partitioned at a prefix that ends in '.' and the part before it is tested to be empty: a prefix test on whole dotted components"
                         else:
                             why = f"`{norm(n, 80)}`: substring search inside a module name ignores component boundaries"
                     else:  # replace
@@ -3243,18 +3356,46 @@ def _scan(repo: Repo) -> list[Site]:
                     key_e = _expand(repo, f, n.args[1])
                     if "NAME" not in tagged(n.args[1]):
                         continue
-                    tail = key_e.values[-1] if isinstance(key_e, ast.JoinedStr) and key_e.values else (key_e.right if isinstance(key_e, ast.BinOp) and isinstance(key_e.op, ast.Add) else None)
-                    if tail is None:
+                    # the piece that directly follows the name
+                    follow = None
+                    if isinstance(key_e, ast.JoinedStr) and len(key_e.values) >= 2 and isinstance(key_e.values[0], ast.FormattedValue):
+                        follow = key_e.values[1].value if isinstance(key_e.values[1], ast.FormattedValue) else key_e.values[1]
+                    elif isinstance(key_e, ast.BinOp) and isinstance(key_e.op, ast.Add):
+                        x = key_e
+                        while isinstance(x.left, ast.BinOp) and isinstance(x.left.op, ast.Add):
+                            x = x.left
+                        follow = x.right
+                    if follow is None:
                         continue  # the position of the name itself
-                    c = _const_str(tail)
-                    if c is None and isinstance(tail, (ast.Name, ast.Attribute)):
-                        c = fold(repo, f.module, tail, f) or (_attr_constant(repo, T, f, tail) if isinstance(tail, ast.Attribute) else None)
-                    if c in (".", "/"):
-                        sites.append(Site(f, n, "bisect", n.args[0], n.args[1], True, "safe", "the block of sub modules in the sorted names is delimited by the separator ('.') and its successor ('/')"))
+                    c = _char_value(repo, f, follow)
+                    if c is not None and c[:1] == ".":
+                        sites.append(Site(f, n, "bisect", n.args[0], n.args[1], True, "safe", "the bound continues the name with the separator: the block of its sub modules in the sorted names"))
+                    elif c is not None and c[:1] == "/":
+                        # exclusive upper bound of the block; the block must start behind the name itself, at name + "."
+                        lower = _block_lower_bound(repo, f, n)
+                        if lower is not None and isinstance(lower, ast.Call) and len(lower.args) >= 2 and norm(_expand(repo, f, lower.args[1])) == norm(_expand(repo, f, key_e.values[0].value if isinstance(key_e, ast.JoinedStr) else x.left)):
+                            sites.append(Site(f, n, "bisect", n.args[0], n.args[1], True, "unsafe", f"`{norm(n, 70)}`: the block of sorted names starts at the module name itself and ends before name + '/': names that continue it with a character below '.' ('pkg.core-legacy', 'pkg.core+') are inside as well; the block of sub modules starts at name + '.'"))
+                        else:
+                            sites.append(Site(f, n, "bisect", n.args[0], n.args[1], True, "safe", "exclusive upper bound of the block of sub modules: the successor of the separator"))
                     elif c is not None:
-                        sites.append(Site(f, n, "bisect", n.args[0], n.args[1], True, "unsafe", f"`{norm(n, 80)}`: the sorted names between the module name and the name followed by {c!r} are all names that have it as raw string prefix ('pkg.ab', 'pkg.a_b' for 'pkg.a'), not only its sub modules"))
+                        sites.append(Site(f, n, "bisect", n.args[0], n.args[1], True, "unsafe", f"`{norm(n, 80)}`: the sorted names up to the module name followed by {c[:1]!r} are all names that have it as raw string prefix ('pkg.ab', 'pkg.a_b' for 'pkg.a'), not only its sub modules"))
                     else:
                         sites.append(Site(f, n, "bisect", n.args[0], n.args[1], True, "unknown", f"`{norm(n, 80)}`: a range of the sorted names is delimited by a key built from a module name; cannot establish that it ends right after the separator"))
+                # ---- an early stop while scanning sorted names for ancestors: takewhile(is_ancestor, reversed(sorted_names))
+                elif isinstance(n, ast.Call) and _call_name(n) in ("takewhile", "dropwhile") and len(n.args) == 2 and "NAME" in tagged(n.args[1]):
+                    pred = n.args[0]
+                    body = pred.body if isinstance(pred, ast.Lambda) else None
+                    relational = body is not None and any(
+                        isinstance(x, ast.Call) and isinstance(x.func, ast.Attribute) and x.func.attr in ("startswith", "endswith", "find", "index", "partition", "removeprefix")
+                        and any("NAME" in tagged(y) for y in [x.func.value, *x.args] if isinstance(y, ast.expr))
+                        for x in ast.walk(body)
+                    )
+                    if not relational and isinstance(pred, (ast.Name, ast.Attribute, ast.Call)):
+                        target = pred.args[0] if isinstance(pred, ast.Call) and _call_name(pred) == "partial" and pred.args else pred
+                        callee = _resolve_callable_text(repo, f, _clone(target)) if isinstance(target, (ast.Name, ast.Attribute)) else None
+                        relational = callee is not None and any(s_.fi is callee and s_.name_typed and s_.group == "relation" for s_ in sites)
+                    if relational:
+                        sites.append(Site(f, n, _call_name(n), n.args[1], pred, True, "unsafe", f"`{norm(n, 80)}`: the scan over the names stops at the first one that is not related - this assumes that related names (ancestors) are neighbours in sort order, which depends on how their siblings are called ('pkg', 'pkg.a' | 'pkg.b.x': the sibling 'pkg.a' hides the ancestor 'pkg')"))
                 # ---- library functions that compare names character by character
                 elif isinstance(n, ast.Call) and (repo.resolve_name(f.module, n.func) or "") in ("os.path.commonprefix", "posixpath.commonprefix", "fnmatch.fnmatch", "fnmatch.fnmatchcase", "fnmatch.filter") and n.args:
                     fq = repo.resolve_name(f.module, n.func)
